@@ -244,6 +244,37 @@ static void answer(struct cmd *c, int rc)
 	drv_end();
 }
 
+/* text source handed to mpt_object_set_property (as a configuration node value would be) */
+struct text_src {
+	MPT_INTERFACE(convertable) c;
+	const char *txt;
+};
+static int text_src_convert(MPT_INTERFACE(convertable) *c, MPT_TYPE(type) type, void *ptr)
+{
+	struct text_src *t = (struct text_src *) c;
+	if (type == 's') {
+		if (ptr) *((const char **) ptr) = t->txt;
+		return (t->txt && *t->txt) ? 's' : 0;
+	}
+	return MPT_ERROR(BadType);
+}
+static const MPT_INTERFACE_VPTR(convertable) text_src_vptr = { text_src_convert };
+static int set_by_property(struct lobj *l, const char *name, const char *text, int reset)
+{
+	MPT_STRUCT(identifier) id = MPT_IDENTIFIER_INIT;
+	struct text_src src;
+	int rc;
+	src.c._vptr = &text_src_vptr;
+	src.txt = text;
+	if (name && !mpt_identifier_set(&id, name, -1)) {
+		return MPT_ERROR(BadOperation);
+	}
+	rc = mpt_object_set_property(&l->o, MPT_ENUM(TraverseChange) | MPT_ENUM(TraverseDefault) | MPT_ENUM(TraverseEmpty),
+	                             name ? &id : 0, reset ? 0 : &src.c);
+	mpt_identifier_set(&id, 0, 0);
+	return rc;
+}
+
 /* value source of a step: text (through mpt_object_set_string) or typed value */
 static int do_set(struct lobj *l, const char *name, const struct cmd *c, char *dbgtext, size_t dbglen)
 {
@@ -255,6 +286,21 @@ static int do_set(struct lobj *l, const char *name, const struct cmd *c, char *d
 	if (!f) f = "null";
 	if (!strcmp(f, "null")) {
 		rc = l->o._vptr->set_property(&l->o, name, 0);
+	}
+	else if (!strcmp(f, "pnull")) {
+		rc = set_by_property(l, name, 0, 1);
+	}
+	else if (!strcmp(f, "pnum") && nn >= 2) {
+		char buf[64];
+		const char *sty = drv_raw(c, "sty");
+		render_num(buf, sizeof(buf), twice(n), sty ? sty : "dec");
+		rc = set_by_property(l, name, buf, 0);
+	}
+	else if (!strcmp(f, "ptxt") || !strcmp(f, "prle")) {
+		char *t = f[1] == 't' ? arg_text(c, "c") : arg_rle(c, "c");
+		rc = set_by_property(l, name, t, 0);
+		memset(t, 'Q', strlen(t));
+		free(t);
 	}
 	else if (!strcmp(f, "empty")) {
 		MPT_INTERFACE(convertable) e;
@@ -420,6 +466,61 @@ static void drv_step(struct cmd *c)
 	else if (!strcmp(a, "fini")) {
 		obj_fini(&obj[o]);
 		answer(c, 0);
+	}
+	else if (!strcmp(a, "cset") || !strcmp(a, "calpha")) {
+		MPT_STRUCT(color) col = { 1, 2, 3, 4 };
+		long long cv[4];
+		int r = a[1] == 's' ? mpt_color_set(&col, (int) drv_int(c, "r", 0), (int) drv_int(c, "g", 0), (int) drv_int(c, "b", 0))
+		                    : mpt_color_setalpha(&col, (int) drv_int(c, "v", 0));
+		cv[0] = col.alpha; cv[1] = col.red; cv[2] = col.green; cv[3] = col.blue;
+		drv_begin(c);
+		j_str("ret", r < 0 ? "refused" : "ok");
+		j_ints("col", cv, 4);
+		drv_dbg();
+		j_int("rc", r);
+		drv_end();
+	}
+	else if (!strcmp(a, "lset")) {
+		MPT_STRUCT(lineattr) la = { 2, 3, 4, 5 };
+		long long lv[4];
+		int r = mpt_lattr_set(&la, (int) drv_int(c, "w", 0), (int) drv_int(c, "st", 0), (int) drv_int(c, "sy", 0), (int) drv_int(c, "sz", 0));
+		lv[0] = la.style; lv[1] = la.width; lv[2] = la.symbol; lv[3] = la.size;
+		drv_begin(c);
+		j_str("ret", r < 0 ? "refused" : "ok");
+		j_ints("la", lv, 4);
+		drv_dbg();
+		j_int("rc", r);
+		drv_end();
+	}
+	else if (!strcmp(a, "sset")) {
+		char **s[4];
+		int ns = obj_strings(&obj[o], s);
+		const char *m = drv_raw(c, "m");
+		long long n = drv_int(c, "n", -1);
+		char *t = arg_rle(c, "c");
+		int rc = 0, done = 0;
+		if (ns && m && !strcmp(m, "new") && n <= (long long) strlen(t)) {
+			rc = mpt_string_set(s[0], t, (int) n);
+			done = 1;
+		}
+		else if (ns && m && *s[0] && **s[0] && !strcmp(m, "self")) {
+			rc = mpt_string_set(s[0], *s[0], -1);
+			done = 1;
+		}
+		else if (ns && m && *s[0] && **s[0] && !strcmp(m, "tail") && n >= 0 && n <= (long long) strlen(*s[0])) {
+			rc = mpt_string_set(s[0], *s[0] + n, -1);
+			done = 1;
+		}
+		memset(t, 'Q', strlen(t));
+		free(t);
+		drv_begin(c);
+		j_str("ret", !done ? "skipped" : rc < 0 ? "refused" : "ok");
+		emit_props("p0", &obj[0]);
+		emit_props("p1", &obj[1]);
+		j_int("shared", shared_strings());
+		drv_dbg();
+		j_int("rc", rc);
+		drv_end();
 	}
 	else if (!strcmp(a, "cparse")) {
 		char *t = arg_text(c, "c");
